@@ -43,7 +43,7 @@ c.add_part({'part': 'thread-local-statics', 'engine': 'IR inspection', 'mutable_
 fams = []
 def fam(name, entry, tier='quick', witness=False, w=1, **kw):
     defs = ['%s=%s' % (k, v) for k, v in kw.items()] + (['WITNESS=1'] if witness else [])
-    fams.append(Family(name + ('-witness' if witness else ''), 'h_c15.c', entry, defs, opts={'libm_uf': 1, 'time_limit': 420, 'query_timeout_ms': 30000},
+    fams.append(Family(name + ('-witness' if witness else ''), 'h_c15.c', entry, defs, opts={'libm_uf': 1, 'time_limit': 900, 'query_timeout_ms': 30000},
                        tier=tier, witness=witness, weight=w, validate=2))
 for p in (0, 1, 2, 3, 5):
     fam('stream-after-prior%d' % p, 'h_stream', PRIOR=p, K=4)
